@@ -437,6 +437,100 @@ def make_close(nrows):
     return mk, replay
 
 
+def make_two_checks(nrows, op, limit):
+    """two whole-file checks declared in an order that differs from the alphabetical order of their names (IsUnique
+    'z_unique' first, DistinctCount 'a_count' second): a row rejected as a duplicate leaves no trace, i.e. close()
+    fails iff the rows actually written break the count rule (= what reading the output back would say)"""
+    text = ("d,format,delimited\nf,k,,,,Choice,\"a,b\"\nf,v,,,,Choice,\"x,y\"\n"
+            "c,z_unique,IsUnique,k\nc,a_count,DistinctCount,v %s %d\n" % (op, limit))
+
+    def go(cells):
+        from cutplace import validio, errors, _compat
+
+        rows = [[cells[2 * r], cells[2 * r + 1]] for r in range(nrows)]
+        for k, v in rows:
+            assume(len(k) == 1 and 97 <= ord(k) <= 99)   # c is no valid key
+            assume(len(v) == 1 and 120 <= ord(v) <= 121)
+        handed = []
+
+        class Recorder:
+            def writerow(self, row):
+                handed.append(list(row))
+
+        cid = rf.build_cid(text)
+        keys = []
+        values = []
+        verdict_ok = True
+        raised = False
+        with patched(rf.smart_repr(), (_compat, "csv_writer", lambda stream, **kw: Recorder())):
+            writer = validio.Writer(cid, object())
+            for k, v in rows:
+                exp = ord(k) != 99
+                for s in keys:
+                    if s == k:
+                        exp = False
+                try:
+                    writer.write_row([k, v])
+                    got = True
+                except errors.DataError:
+                    got = False
+                if got != exp:
+                    verdict_ok = False
+                if exp:
+                    keys.append(k)
+                    new = True
+                    for s in values:
+                        if s == v:
+                            new = False
+                    if new:
+                        values.append(v)
+            try:
+                writer.close()
+            except errors.CheckError:
+                raised = True
+        n = len(values)
+        holds = {"<=": n <= limit, ">=": n >= limit, "==": n == limit, "<": n < limit}[op]
+        ok = verdict_ok and len(handed) == len(keys) and raised == (not holds)
+        return ok, ("endok" if holds else "endfail"), rows, handed, raised
+
+    def mk(mode):
+        def h(c0: str, c1: str, c2: str, c3: str, c4: str, c5: str):
+            ok, cls, _, _, _ = go([c0, c1, c2, c3, c4, c5])
+            return ok, cls
+
+        return h
+
+    def replay(args):
+        import io
+        from cutplace import interface, validio, errors
+        cells = [args["c%d" % i] for i in range(6)]
+        rows = [[cells[2 * r], cells[2 * r + 1]] for r in range(nrows)]
+        cid = interface.create_cid_from_string(text)
+        out = io.StringIO()
+        w = validio.Writer(cid, out)
+        for row in rows:
+            try:
+                w.write_row(row)
+            except errors.DataError:
+                pass
+        close_error = None
+        try:
+            w.close()
+        except errors.CheckError as e:
+            close_error = e
+        produced = out.getvalue()
+        back_error = None
+        try:
+            validio.validate(interface.create_cid_from_string(text), io.StringIO(produced, newline=""))
+        except errors.DataError as e:
+            back_error = e
+        return (close_error is None) != (back_error is None), \
+            "rows %r written under checks (z_unique: IsUnique k; a_count: DistinctCount v %s %d): close() -> %r, reading the " \
+            "output %r back -> %r" % (rows, op, limit, close_error, produced, back_error), "writer-whole-file-checks"
+
+    return mk, replay
+
+
 def make_readback(nrows, delim):
     text = FIXED_CID % (delim, 0)
     sep = SEP[delim]
@@ -538,6 +632,13 @@ def build(tier, seed):
                    "the opened file is closed by close() whether or not the end-of-data check fails", budget_s=600,
                    expect=("endok", "endfail"), replay=rp, functions=FUNCS,
                    stubs=("rowio.io.open -> recording stream", "S-CSVW", "S-FMT")))
+    for op, limit in ((("<=", 1), (">=", 2)) if tier == "quick" else (("<=", 1), (">=", 2), ("==", 1), ("<", 2))):
+        mk, rp = make_two_checks(3, op, limit)
+        q.append(Query("C14/two-checks/rows=3/count %s %d" % (op, limit), "writer-two-checks", mk,
+                       "delimited CID with IsUnique (declared first, name z_unique) and DistinctCount v %s %d (declared second, "
+                       "name a_count); 3 rows, key from {a,b,c}, value from {x,y}, all symbolic: duplicates are rejected without "
+                       "a trace, close() fails iff the written rows break the count rule" % (op, limit), budget_s=600,
+                       expect=("endok", "endfail"), replay=rp, functions=FUNCS, stubs=("S-CSVW", "S-FMT")))
     for nrows, delim in ((1, "lf"), (2, "lf"), (1, "crlf")) + (((2, "crlf"), (2, "cr"), (3, "lf")) if tier == "thorough" else ()):
         mk, rp = make_readback(nrows, delim)
         q.append(Query("C14/readback/rows=%d/%s" % (nrows, delim), "readback", mk,
